@@ -163,7 +163,9 @@ def setup_as_dict(it, cfg):
     advalue = it.fresh("ad_value", "Int")
     arg = {"none": None, "list": ["name", "pid"], "empty": [], "bad": ["name", "bogus"], "str": "name",
            "tuple": ("ppid",), "set": {"status"}, "badset": {"name", "bogus"}, "badtuple": ("bogus",),
-           "badfrozen": frozenset({"bogus"})}[attrs]
+           "badfrozen": frozenset({"bogus"}),
+           # iterables that are not collections (one-shot iterators, generators), and a non-iterable
+           "iter": iter(["name"]), "gen": (n for n in ["name", "pid"]), "map": map(str, ["name"]), "int": 5}[attrs]
     return {"args": {"self": o, "attrs": arg, "ad_value": advalue},
             "spec": {"vals": vals, "behaviour": behaviour, "mode": attrs, "adv": advalue, "NAMES": NAMES},
             "values": [advalue]}
@@ -175,7 +177,7 @@ def h_queries(it, log):
 
 AD_CFGS = [{"attrs": a, "behaviour": b} for a in ("none", "list", "empty", "bad", "str", "tuple", "set")
            for b in ("value", "denied", "zombie", "gone", "notimpl")] + \
-          [{"attrs": a, "behaviour": "value"} for a in ("badset", "badtuple", "badfrozen")]
+          [{"attrs": a, "behaviour": "value"} for a in ("badset", "badtuple", "badfrozen", "iter", "gen", "map", "int")]
 
 REGISTRY.add(Contract(
     "C16", INIT, "Process.as_dict", setup=setup_as_dict, env=ENV, configs=AD_CFGS, inline=["pid"],
@@ -190,9 +192,11 @@ REGISTRY.add(Contract(
         "implies('name' in result and behaviour in ('denied', 'zombie'), result['name'] == adv)",
         "implies('ppid' in result, result['ppid'] == vals['ppid'])",
         "log[0] == ('oneshot', 'enter') and log[-1] == ('oneshot', 'exit')",
+        # a dict comes back only for None or a collection of known names: everything else must have been rejected
+        "mode in ('none', 'list', 'empty', 'tuple', 'set')",
     ],
     raises={
-        "TypeError": ["mode == 'str'", "len(log) == 0"],                   # rejected before querying anything
+        "TypeError": ["mode in ('str', 'iter', 'gen', 'map', 'int')", "len(log) == 0"],                   # rejected before querying anything
         "ValueError": ["mode in ('bad', 'badset', 'badtuple', 'badfrozen')", "len(log) == 0"],   # whatever the collection type
         "NoSuchProcess": ["behaviour == 'gone'", "log[-1] == ('oneshot', 'exit')"],
         "NotImplementedError": ["behaviour == 'notimpl'", "mode == 'list'", "log[-1] == ('oneshot', 'exit')"],
